@@ -189,6 +189,42 @@ func runC17(c *Ctx) {
 			}
 		}
 	}
+	// keys that cannot even be asked for their public half (a typed nil pointer, a handle whose Public()
+	// crashes, an untyped nil) together with an algorithm outside the three supported families: the answer
+	// is the documented "algorithm not supported" error - nothing about the key is looked at
+	for _, a := range algs {
+		if famOf(a) != "" {
+			continue
+		}
+		for name, key := range map[string]crypto.Signer{
+			"typed-nil-*rsa.PrivateKey":   (*rsa.PrivateKey)(nil),
+			"typed-nil-*ecdsa.PrivateKey": (*ecdsa.PrivateKey)(nil),
+			"untyped-nil":                 nil,
+			"public-panics":               panickySigner{},
+			"typed-nil-handle":            (*panickyHandle)(nil),
+		} {
+			cell := fmt.Sprintf("NewSigner/alg=%d/key=%s", int64(a), name)
+			in := map[string]any{"cell": cell}
+			var sg cose.Signer
+			var err error
+			if guard(rec, "NewSigner(unusable key, unsupported algorithm)", in, func() { sg, err = cose.NewSigner(a, key) }) {
+				continue
+			}
+			rec.Eval(1)
+			rec.Class(cell)
+			rec.Event("NewSigner(unusable key)")
+			if sg != nil || !errors.Is(err, cose.ErrAlgorithmNotSupported) {
+				rec.Violate("wrong-error", cell, fmt.Sprintf("signer=%v err=%v, want ErrAlgorithmNotSupported", sg != nil, err), in)
+			}
+			var v cose.Verifier
+			if guard(rec, "NewVerifier(unusable key, unsupported algorithm)", in, func() { v, err = cose.NewVerifier(a, key) }) {
+				continue
+			}
+			if v != nil || !errors.Is(err, cose.ErrAlgorithmNotSupported) {
+				rec.Violate("wrong-error", "NewVerifier"+cell[9:], fmt.Sprintf("verifier=%v err=%v, want ErrAlgorithmNotSupported", v != nil, err), in)
+			}
+		}
+	}
 	rec.Exhaustive = true
 
 	// ------------------------------------------------------- digest equivalence --
@@ -372,4 +408,20 @@ func c17judge(rec *mon.Recorder, cell string, in map[string]any, want bool, fam 
 		}
 	}
 	_ = rsa.PublicKey{}
+}
+
+// panickySigner is a key handle whose backend is gone: every method crashes.
+type panickySigner struct{}
+
+func (panickySigner) Public() crypto.PublicKey { panic("key backend unavailable") }
+func (panickySigner) Sign(io.Reader, []byte, crypto.SignerOpts) ([]byte, error) {
+	panic("key backend unavailable")
+}
+
+// panickyHandle dereferences its receiver in Public (a typed nil of it crashes there).
+type panickyHandle struct{ pub crypto.PublicKey }
+
+func (h *panickyHandle) Public() crypto.PublicKey { return h.pub }
+func (h *panickyHandle) Sign(io.Reader, []byte, crypto.SignerOpts) ([]byte, error) {
+	return nil, errors.New("no")
 }
